@@ -1,0 +1,92 @@
+//go:build verif
+
+package process
+
+// Verification hooks (build tag "verif"): every hook forwards to the tracer the
+// harness installed, or does nothing when none is installed.
+
+type VerifTracer interface {
+	Spawn(child *Process)
+	Gate(p *Process, re *RuntimeEnvironment)
+	Send(p *Process, ch chan Message, m Message)
+	Recv(p *Process, ch chan Message, m Message)
+	CtlSend(p *Process, ch chan ControlMessage, m ControlMessage)
+	CtlRecv(p *Process, ch chan ControlMessage, m ControlMessage)
+	Chan(ident string, ch chan Message, ctl chan ControlMessage)
+	Rule(p *Process, r Rule)
+	Print(p *Process, label string)
+	End(p *Process, how string)
+	Quiesce(re *RuntimeEnvironment)
+	Tc(phase string)
+}
+
+var VerifT VerifTracer
+
+func verifSpawn(child *Process) {
+	if VerifT != nil {
+		VerifT.Spawn(child)
+	}
+}
+func verifGate(p *Process, re *RuntimeEnvironment) {
+	if VerifT != nil {
+		VerifT.Gate(p, re)
+	}
+}
+func verifSend(p *Process, ch chan Message, m Message) {
+	if VerifT != nil {
+		VerifT.Send(p, ch, m)
+	}
+}
+func verifRecv(p *Process, ch chan Message, m Message) {
+	if VerifT != nil {
+		VerifT.Recv(p, ch, m)
+	}
+}
+func verifCtlSend(p *Process, ch chan ControlMessage, m ControlMessage) {
+	if VerifT != nil {
+		VerifT.CtlSend(p, ch, m)
+	}
+}
+func verifCtlRecv(p *Process, ch chan ControlMessage, m ControlMessage) {
+	if VerifT != nil {
+		VerifT.CtlRecv(p, ch, m)
+	}
+}
+func verifChan(ident string, ch chan Message, ctl chan ControlMessage) {
+	if VerifT != nil {
+		VerifT.Chan(ident, ch, ctl)
+	}
+}
+func verifRule(p *Process, r Rule) {
+	if VerifT != nil {
+		VerifT.Rule(p, r)
+	}
+}
+func verifPrint(p *Process, label string) {
+	if VerifT != nil {
+		VerifT.Print(p, label)
+	}
+}
+func verifEnd(p *Process, how string) {
+	if VerifT != nil {
+		VerifT.End(p, how)
+	}
+}
+func verifQuiesce(re *RuntimeEnvironment) {
+	if VerifT != nil {
+		VerifT.Quiesce(re)
+	}
+}
+func verifTc(phase string) {
+	if VerifT != nil {
+		VerifT.Tc(phase)
+	}
+}
+
+// VerifKeepAlive sends one heartbeat (used by the replay driver, which decides quiescence itself).
+func VerifKeepAlive(re *RuntimeEnvironment) {
+	select {
+	case re.heartbeat <- struct{}{}:
+	default:
+	}
+}
